@@ -6,6 +6,7 @@ import (
 	"bytes"
 	"fmt"
 	"math"
+	"math/big"
 	"strconv"
 	"strings"
 	"sync/atomic"
@@ -315,7 +316,8 @@ func Run(r *core.Run) {
 			addUlps(f, 1)
 		}
 	}
-	for _, s := range []string{"0", "5e-324", "1.7976931348623157e308", "9007199254740992", "9007199254740993", "4.5", "0.002", "0.000001", "0.0000001", "1e21", "999999999999999900000", "1e23", "123456789012345680000", "295147905179352830000", "5.9e20"} {
+	for _, s := range []string{"0", "5e-324", "1.7976931348623157e308", "9007199254740992", "9007199254740993", "4.5", "0.002", "0.000001", "0.0000001", "1e21", "999999999999999900000", "1e23", "123456789012345680000", "295147905179352830000", "5.9e20",
+		"9999999999999999", "9007199254740995", "18014398509481985", "99999999999999999", "1000000000000001", "4503599627370497", "999999999999999", "1234567890123456", "72057594037927937"} {
 		f, _ := strconv.ParseFloat(s, 64)
 		addUlps(f, 4)
 	}
@@ -339,6 +341,20 @@ func Run(r *core.Run) {
 			if !strings.Contains(fs, ".") {
 				add(fs + ".0")
 				add(fs + ".000e0")
+			}
+		}
+		// integers: the exact decimal expansion and the neighbouring integers that still round to the same double
+		// (spellings a sender may legitimately use for a value above 2^53)
+		if a := math.Abs(f); a >= 1e15 && a < 1e22 && f == math.Trunc(f) {
+			exact := strconv.FormatFloat(f, 'f', 0, 64)
+			add(exact)
+			if bi, ok := new(big.Int).SetString(exact, 10); ok {
+				for d := int64(-3); d <= 3; d++ {
+					c := new(big.Int).Add(bi, big.NewInt(d)).String()
+					if g, err := strconv.ParseFloat(c, 64); err == nil && g == f && c != exact {
+						add(c)
+					}
+				}
 			}
 		}
 		if f == 0 {
